@@ -67,7 +67,7 @@ CLAIMS = {
  "C15": ("Theorems: translate_with_wrap((mc,mr)) with mc <= C, mr <= R equals the cell permutation new[(c,r)] = old[((c+mc)%C,(r+mr)%R)] of the receiver (so nothing lost or duplicated, frame untouched) - the cycle-leader loop with rotate-while-swapping is verified for all shapes via its one-cycle invariant and the orbit structure of k -> (b + k*a) mod R (gcd(R,a) orbits of length R/gcd), the fuelled loops never run out, no usize overflow (after the fix) and no ub; a larger mid panics; flip_rows / flip_cols are the stated mirrors; all three cell maps are bijections. Correspondence: all shapes <= 5x5 x all mids 0..dim+1 and 2^64-1, views and nested views, taller arrays up to 12 rows (every gcd pattern).",
          "rotate_left, swap_with_slice, reverse modelled by specification",
          "Lean 4 proof (nested loop invariants + number theory of the orbits) + differential correspondence"),
- "C01": ("Theorems over histories: an operation type covering construction, insert_row/insert_col with any iterator script, remove/pop of rows and columns (final state independent of how far the drain was consumed, C07), clear, swap_dimensions, capacity calls, fill, the swap family, copy_from_slice, translate, flips, sort_by_row/col - with arbitrary valid or invalid arguments; `hstep` = the Impl-model's array after the call (also after a rejected call or a panic in caller code). Proved: one step preserves the shape invariant; hence every array reachable from default()/any valid array by any history satisfies it (induction over the history, both build modes); rows()/cells()/col(c) report num_rows / num_cols*num_rows / num_rows; and for the structural operations and the swap/fill/flip primitives the array's rows-of-cells equal those of the plain model `gstep` driven by the same operation (the other in-place algorithms are specified cell-wise by C13-C17). Composition of C06, C07, C11, C13-C17. Correspondence: random histories of 10-40 mostly-valid operations (incl. rejected calls, views, iterators) on u32 / ledgered cells / zero-sized elements, plus exhaustive depth-3 words over 14 structural operations from 5 tiny shapes; size, data().len(), all iterator lengths and every cell compared after every step.",
+ "C01": ("Theorems over histories: an operation type covering construction, insert_row/insert_col with any iterator script, remove/pop of rows and columns (final state independent of how far the drain was consumed, C07), clear, swap_dimensions, capacity calls, fill, the swap family, copy_from_slice, translate, flips, sort_by_row/col - with arbitrary valid or invalid arguments; `hstep` = the Impl-model's array after the call (also after a rejected call or a panic in caller code). Proved: one step preserves the shape invariant; hence every array reachable from default()/any valid array by any history satisfies it (induction over the history, both build modes); rows()/cells()/col(c) report num_rows / num_cols*num_rows / num_rows; and after every operation (construction, structural, swap family, fill, copy_from_slice, translate, flips, stable sorts - with any valid or invalid arguments) the array's rows-of-cells equal those of the plain rows-of-cells model `gstep` driven by the same operation (only lying or panicking iterator scripts are left open, as in the property). Composition of C06, C07, C11, C13-C17. Correspondence: random histories of 10-40 mostly-valid operations (incl. rejected calls, views, iterators) on u32 / ledgered cells / zero-sized elements, plus exhaustive depth-3 words over 14 structural operations from 5 tiny shapes; size, data().len(), all iterator lengths and every cell compared after every step.",
          "as for the composed properties; capacity is not part of the modelled state (reserve / shrink_to_fit are identity steps)",
          "Lean 4 proof (invariant by induction over operation histories; refinement to a rows-of-cells model) + differential correspondence on histories"),
 }
